@@ -232,3 +232,72 @@ func ZZ_C19_H2() {
 	}
 	zz.Assert("tracer-reaches-the-controller", e.tracerCtl.HasTracer() == withTracer)
 }
+
+type zzDrainingTransport struct {
+	zzTransport
+	drainMs int // < 0: connections never finish, the drain lasts until the context is done
+}
+
+func (t *zzDrainingTransport) Shutdown(ctx context.Context) error {
+	t.zzTransport.Shutdown(ctx) //nolint:errcheck
+	if t.drainMs < 0 {
+		<-ctx.Done()
+		return ctx.Err()
+	}
+	zz.SlowFor(t.drainMs)
+	return ctx.Err()
+}
+
+// ZZ_C18_H5: "the call returns no later than the configured exit wait time plus slack" on the
+// modelled clock. The exit wait is one second; the transport's drain takes 0, 400 or 800 ms of
+// it or lasts until the deadline (connections that never finish); the shutdown hook is fast,
+// returns when its context is done, or never returns (beyond the deadline). context.WithTimeout
+// runs from SSA and its time.AfterFunc timer fires at its deadline on the modelled clock; a
+// hook that never returns leaves its goroutine blocked for good. The caller's context is
+// without deadline, or already cancelled.
+func ZZ_C18_H5() {
+	e := zzNewEngine()
+	e.options.ExitWaitTimeout = time.Second
+	drain := zz.Choose("drain", 4) // 0, 400, 800 ms, 3: until the deadline
+	tr := &zzDrainingTransport{drainMs: drain * 400}
+	if drain == 3 {
+		tr.drainMs = -1
+	}
+	e.transport = tr
+	e.status = statusRunning
+	hookKind := zz.Choose("hook", 3) // 0 fast, 1 until its context is done, 2 never returns
+	callerCancelled := zz.Choose("callerContextCancelled", 2) == 1
+	never := make(chan struct{})
+	started := 0
+	e.OnShutdown = append(e.OnShutdown, func(ctx context.Context) {
+		started++
+		if hookKind >= 1 {
+			<-ctx.Done()
+		}
+		if hookKind == 2 {
+			<-never
+		}
+	})
+	ctx := context.Background()
+	if callerCancelled {
+		c, cancel := context.WithCancel(ctx)
+		cancel()
+		ctx = c
+	}
+	t0 := time.Now()
+	e.Shutdown(ctx) //nolint:errcheck
+	took := time.Since(t0)
+	zz.Cover("reached-assert", true)
+	zz.Cover("hook-beyond-the-deadline", hookKind == 2 && !callerCancelled)
+	zz.Cover("drain-until-the-deadline", drain == 3 && !callerCancelled)
+	if !callerCancelled {
+		// with a caller context that is already cancelled there is nothing to wait for: the
+		// hook goroutine is launched but need not have been scheduled when Shutdown returns
+		zz.Assert("hook-was-started", started == 1)
+	}
+	zz.Assert("transport-asked-to-shut-down-once", tr.shutdowns == 1)
+	zz.Assert("shutdown-returns-no-later-than-the-exit-wait-plus-slack", took < time.Second+300*time.Millisecond)
+	if hookKind == 0 && drain < 3 && !callerCancelled {
+		zz.Assert("nothing-to-wait-for-returns-after-the-drain", took < time.Duration(drain*400+300)*time.Millisecond)
+	}
+}
